@@ -71,8 +71,23 @@ func main() {
 		fmt.Printf("INCONCLUSIVE property=%s cannot find own executable: %v\n", *prop, err)
 		os.Exit(2)
 	}
+	// every scratch directory of the child (and of its workers) lives under one
+	// directory that the parent removes however the child ends
+	scratchBase := os.Getenv("VERIF_SCRATCH")
+	if scratchBase == "" {
+		scratchBase = os.TempDir()
+	}
+	scratch, err := os.MkdirTemp(scratchBase, "verif-run-"+*prop+"-")
+	if err != nil {
+		fmt.Printf("INCONCLUSIVE property=%s cannot make a scratch directory: %v\n", *prop, err)
+		os.Exit(2)
+	}
+	exit := func(rc int) {
+		os.RemoveAll(scratch)
+		os.Exit(rc)
+	}
 	cmd := exec.Command(exe, os.Args[1:]...)
-	cmd.Env = append(os.Environ(), "VERIF_CHILD=1", "GOTRACEBACK=all")
+	cmd.Env = append(os.Environ(), "VERIF_CHILD=1", "GOTRACEBACK=all", "VERIF_SCRATCH="+scratch)
 	var outTail, errTail tail
 	cmd.Stdout = io.MultiWriter(os.Stdout, &outTail)
 	cmd.Stderr = io.MultiWriter(os.Stderr, &errTail)
@@ -81,7 +96,7 @@ func main() {
 	if i := strings.LastIndex(out, doneMarker); i >= 0 {
 		var rc int
 		fmt.Sscan(out[i+len(doneMarker):], &rc)
-		os.Exit(rc)
+		exit(rc)
 	}
 	// the child ended without reaching its verdict
 	stderr := string(errTail.buf)
@@ -130,10 +145,10 @@ func main() {
 		"detail": map[string]interface{}{"stderr_tail": lastN(stderr, 20000), "stdout_tail": lastN(out, 4000)}}, "", " ")
 	os.WriteFile(rp, b, 0o644)
 	if known {
-		os.Exit(0)
+		exit(0)
 	}
 	fmt.Printf("VIOLATION property=%s replay=%s\n  key=%s\n  what=the checking process was killed by a fatal error inside the code under test: %s\n", *prop, rp, key, first)
-	os.Exit(1)
+	exit(1)
 }
 
 func lastN(s string, n int) string {
